@@ -156,7 +156,7 @@ func (k *r8client) Instr(s r8state, in ssa.Instruction) (r8state, bool, []r8stat
 			if sc == k.finalize || k.fin[sc] {
 				s.passed = true
 			}
-			if k.isNext && sc.Name() == "feedUntil" {
+			if k.isNext && core.FuncName(sc) == "feedUntil" {
 				if s.pending != 0 {
 					k.fail(".ADVANCE", "refeed", "feeds the parser again before the window was advanced by the previously consumed count")
 				}
@@ -432,7 +432,7 @@ func R8(pkgs ...string) func(p *core.Prog) *core.Result {
 						if c.Common().IsInvoke() && c.Common().Method.Name() == "Read" {
 							hasRead = true
 						}
-						if sc := c.Common().StaticCallee(); sc != nil && sc.Name() == "feedUntil" {
+						if sc := c.Common().StaticCallee(); sc != nil && core.FuncName(sc) == "feedUntil" {
 							hasFeed = true
 						}
 					}
@@ -543,7 +543,7 @@ func (k *finPopClient) Instr(s finPopState, in ssa.Instruction) (finPopState, bo
 	if sc == nil {
 		return s, true, nil
 	}
-	if sc.Name() == "popState" || sc.Name() == "popLenState" || (sc.Name() == "pop" && sc.Signature.Recv() != nil && namedOf(sc.Signature.Recv().Type()) != nil && namedOf(sc.Signature.Recv().Type()).Obj().Name() == "stateStack") {
+	if core.FuncName(sc) == "popState" || core.FuncName(sc) == "popLenState" || (core.FuncName(sc) == "pop" && sc.Signature.Recv() != nil && namedOf(sc.Signature.Recv().Type()) != nil && namedOf(sc.Signature.Recv().Type()).Obj().Name() == "stateStack") {
 		if !s.matched {
 			k.bad = "pops an open parser state at " + k.p.Pos(c.Pos()) + " without having matched its kind: any unfinished value or unterminated container that happens to be open at end of input is silently discarded and the truncated document accepted"
 		}
